@@ -10,3 +10,15 @@ CLAIMED["C11"] = (
     "Coq proof by induction over the tempo list and over the hinted fold (invariant: stored index = governing index) + per-run vm_compute correspondence",
     "Theorems C11_hint/C11_ts/C11_ts_reject/C11_any_ok/C11_index (every tempo list with strictly increasing ticks, every tick, every hint: hints <= governing index are invisible, hints beyond it raise ValueError, the index is the last event at or before the tick), C11_threaded/C11_threaded_err/C11_notes (body lines in ANY order: the hinted fold either fails or stores exactly the un-hinted query, incl. the start->end hand-over of notes), C11_built_wf/C11_bpm_self (every built tempo list is well formed).",
     MODEL_NOTE)
+CLAIMED["C02"] = (
+    "Coq proof by induction over the line list (grouping) and a fold invariant (lanes) + per-run vm_compute correspondence",
+    "Theorems C02_concat/uniform/maximal/sorted (grouping loses, duplicates, merges nothing; for non-decreasing ticks exactly one group per distinct tick, strictly increasing, each the fibre of its tick), C02_lanes/C02_open (bit k set iff a line of the group names lane k; flag/open indices set nothing), C02_events (one event per group with its tick and lanes), C02_interleave (non-note lines can be interleaved anywhere). Unbounded in section length and tick values.",
+    MODEL_NOTE)
+CLAIMED["C03"] = (
+    "Coq proof: fold invariants over the lane-sustain slots, case analysis of _refined_sustain_tuple, max-fold lemmas + per-run vm_compute correspondence",
+    "Theorems C03_open/flags_only/uniform/tuple/flags_ignored (sustain of a group for every lane/length assignment incl. open note anywhere in the tick; flags never contribute), C03_longest/longest_total (maximum, never raises on a built event), C03_event (end time = query at tick + longest with the start's index as hint; C11 removes the hint), C03_last (maximum end; None iff no notes), C03_refuted_pinned (the pinned tree's defect, repaired by fix 2f3b00f).",
+    MODEL_NOTE)
+CLAIMED["C04"] = (
+    "Coq proof: decision-table case analysis + Flocq proof that round(R/3) in binary64 is (2R+3)/6 for all 1<=R<2^50 + per-run vm_compute correspondence",
+    "Theorems C04_rule (decision table for any boundary), C04_first/C04_first_forced (first note; documented rejection), C04_threshold (float: round(resolution/3) is resolution/3 to the nearest tick for every resolution below 2^50), C04_closed, C04_track (every event of every built track carries the decision of (predecessor, itself)), C04_chord.",
+    MODEL_NOTE + " The eighth-triplet divisor 3 is regenerated from the source and checked in Tie/C04.v.")
